@@ -3,7 +3,7 @@ import ast
 
 from sa import guards as G
 from sa.flow import GuardMap, Provenance
-from sa.repo import AnchorError, call_name, calls_in, dotted, norm, walk_no_nested, kwarg
+from sa.repo import ordk, AnchorError, call_name, calls_in, dotted, norm, walk_no_nested, kwarg
 from sa.util import bind_args
 from sa.vendors import load_rule_texts
 from rules.c18 import resolve_rulebook_function
@@ -125,7 +125,7 @@ def r2(c):
     seqs = {}
     for name, fn in (("device", dev), ("file", fil)):
         calls = sorted([x for x in calls_in(fn) if call_name(x).split(".")[-1] in ("make_diff", "make_pre", "patch_from_pre", "make_patch", "strip_unchanged", "get_rulebook")],
-                       key=lambda x: (x.lineno, x.col_offset))
+                       key=ordk)
         seqs[name] = [call_name(x).split(".")[-1] for x in calls]
         pcs = [x for x in calls if call_name(x).split(".")[-1] == "patch_from_pre"]
         ok = len(pcs) == 1 and "make_patch" not in seqs[name]
@@ -191,21 +191,21 @@ def r3(c):
             a0 = b.args[0] if b.args else kwarg(b, "pre")
             if isinstance(a0, ast.Name):
                 for d in pv.rd.defs(a0):
-                    consumed_defs.add((d, b.lineno))
+                    consumed_defs.add((d, b))
         # same function: rendered later
         for x in calls_in(fn):
             if call_name(x).split(".")[-1] in RENDERERS and x.args and isinstance(x.args[0], ast.Name):
                 for d in pv.rd.defs(x.args[0]):
                     for (cd, ln) in consumed_defs:
-                        if d == cd and x.lineno > ln:
-                            c.violated("C16.R3", repo.loc(m, x), f"{q}/render-after-build", f"`{norm(x)[:60]}` renders a pre that was handed to the patch builder at line {ln}", key_text="same-fn")
+                        if d == cd and ordk(x) > ordk(ln):
+                            c.violated("C16.R3", repo.loc(m, x), f"{q}/render-after-build", f"`{norm(x)[:60]}` renders a pre that was handed to the patch builder at line {ln.lineno}", key_text="same-fn")
         for r in [n for n in walk_no_nested(fn) if isinstance(n, ast.Return) and n.value is not None]:
             elts = r.value.elts if isinstance(r.value, ast.Tuple) else [r.value]
             for i, e in enumerate(elts):
                 if isinstance(e, ast.Name):
                     for d in pv.rd.defs(e):
                         for (cd, ln) in consumed_defs:
-                            if d == cd and r.lineno > ln:
+                            if d == cd and ordk(r) > ordk(ln):
                                 consumed_ret.setdefault(q, set()).add(i if isinstance(r.value, ast.Tuple) else None)
     c.analysed["functions_returning_consumed_pre"] = {k: sorted(str(x) for x in v) for k, v in consumed_ret.items()}
     n_sites = 0
@@ -243,7 +243,7 @@ def r4(c):
     m = repo.module(API)
     eff = Effects(repo, mode="contents", max_depth=5)
     for name, q in (("device", "_diff_and_patch"), ("file", "_read_old_new_diff_patch")):
-        fn = repo.func(API, q, canon=False)
+        fn = repo.func(API, q)
         c.count("functions")
         pv = Provenance(fn)
         mds = [x for x in calls_in(fn) if call_name(x).split(".")[-1] == "make_diff"]
@@ -256,10 +256,10 @@ def r4(c):
         pre_calls = [x for x in ([pre_arg] + pv.origin_calls(pre_arg, through_calls=False)) if isinstance(x, ast.Call) and call_name(x).split(".")[-1] == "make_pre"] if pre_arg is not None else []
         if not pre_calls:
             raise AnchorError(f"{q}: make_pre feeding patch_from_pre not found")
-        use_line = min(x.lineno for x in pre_calls)
+        use_line = min(ordk(x) for x in pre_calls)
         bad = None
         for x in calls_in(fn):
-            if x is mds[0] or x in pre_calls or x.lineno >= use_line:
+            if x is mds[0] or x in pre_calls or ordk(x) >= use_line:
                 continue
             for i, a in enumerate(x.args):
                 if isinstance(a, ast.Name) and any(o is mds[0] for o in pv.origin_calls(a, through_calls=False)) and isinstance(pv.resolve_alias(a), ast.Call) and pv.resolve_alias(a) is mds[0]:
